@@ -46,6 +46,13 @@ def run(ctx):
         use = scr if (not quick or fam == "vector") else scr[:3]
         for i, ops in enumerate(use):
             jobs.append((algo, fam, ops, 4, ctx.seed + 200 + i, False))
+    # agent wrapper (RSNorm): running statistics must survive clone and both load paths
+    wscr = [[("create", 1, 7), ("act", 1), ("learn", 1, 1), ("act", 1), ("save", 1, 1), ("clone", 1, 2, 5), ("act", 1), ("learn", 1, 2),
+             ("loadnew", 1, 3), ("loadinto", 1, 1), ("learn", 1, 3), ("learn", 2, 3), ("learn", 3, 3)]]
+    # (RSNorm documents that it supports off-policy algorithms only)
+    for algo in (["DQN", "DDPG"] if quick else ["DQN", "DDPG", "RainbowDQN", "TD3", "CQN"]):
+        for i, ops in enumerate(wscr):
+            jobs.append((algo, "vector", ops, 4, ctx.seed + 300 + i, False, True))
     traces = ec.run_scripts(jobs)
     for t, j in zip(traces, jobs):
         ctx.case((j[0], j[1], str(j[2])), nontrivial=True)
